@@ -29,6 +29,7 @@ def gen_cases(tier, seed):
     masks = list(range(2 ** 9))
     step = 64
     cases += [{"kind": "observables", "masks": masks[i:i + step]} for i in range(0, len(masks), step)]
+    cases += [{"kind": "suffixes"}]
     cases += [{"kind": "dmrg", "noise": nz} for nz in ["none", "dephasing", "relaxation", "depolarizing", "eff", "leakage", "spam", "amplitude", "detuning", "doppler", "register"]]
     return cases
 
@@ -107,6 +108,46 @@ def run_case(case):
                 except Exception:
                     pass
                 cnt["derived_configs_checked"] += 1
+    elif kind == "suffixes":
+        # tags are '<base tag>_<suffix>': a non-permutable observable stays non-permutable whatever words its suffix (or a custom base tag) contains
+        import torch
+        from pulser.backend import Observable
+        from emu_mps.observables import EntanglementEntropy
+
+        psi = emu_mps.MPS.make(2, num_gpus_to_use=0, eigenstates=("r", "g"))
+        op = emu_mps.MPO.from_operator_repr(eigenstates=("r", "g"), n_qudits=2, operations=[(1.0, [({"rr": 1.0}, {0})])])
+
+        class LocalEnergy(Observable):  # a user-defined observable whose base tag merely contains a whitelisted word
+            @property
+            def _base_tag(self):
+                return "local_energy"
+
+            def apply(self, *, config, state, hamiltonian, **kw):
+                return torch.tensor(0.0)
+
+        nonperm_makers = {"state": lambda sfx: emu_mps.StateResult(tag_suffix=sfx), "fidelity": lambda sfx: emu_mps.Fidelity(psi, tag_suffix=sfx),
+                          "expectation": lambda sfx: emu_mps.Expectation(op, tag_suffix=sfx), "entanglement_entropy": lambda sfx: EntanglementEntropy(0, tag_suffix=sfx),
+                          "local_energy": lambda sfx: LocalEnergy(tag_suffix=sfx)}
+        for name, mk in nonperm_makers.items():
+            for sfx in [None, "energy", "occupation", "after_occupation", "bitstrings", "correlation_matrix", "energy_variance", "a", "final", "statistics"]:
+                for extra in (None, "occupation", "energy-suffixed"):
+                    try:
+                        obs = [mk(sfx)]
+                    except Exception:
+                        continue
+                    if extra == "occupation":
+                        obs.append(emu_mps.Occupation())
+                    elif extra == "energy-suffixed":
+                        obs.insert(0, emu_mps.Energy(tag_suffix="x"))
+                    try:
+                        cfg = MPSConfig(observables=obs, optimize_qubit_ordering=True, log_level=q, num_gpus_to_use=0)
+                    except Exception as e:
+                        viol.append({"key": f"C33:config-with-suffixed-observable-raises:{type(e).__name__}", "msg": f"{name} suffix={sfx}: {e}"[:200]})
+                        continue
+                    cnt["observable_subsets"] += 1
+                    fps.append(f"sfx:{name}:{sfx}:{extra}")
+                    if cfg.optimize_qubit_ordering:
+                        viol.append({"key": "C33:reordering-left-on-with-non-permutable-observable:tag-contains-a-permutable-word", "msg": f"tags {[o.tag for o in obs]}"})
     elif kind == "observables":
         makers = _observables()[:9]
         for mask in case["masks"]:
